@@ -19,7 +19,8 @@ var props = map[string]propSpec{
 		MinReach: []string{"breaker_tripped", "breaker_reset", "breaker_reopened", "half_open_cap_hit", "stale_completion", "stale_completion_across_2_generations", "half_open_cap_with_stale_inflight"}},
 	"C16": {Engine: "sched", Cover: []string{"schedule|"}, QuickRuns: 40000, QuickSecs: 40, ThoroughS: 600, Components: schedComponents,
 		MinReach: []string{"singleflight_join", "late_join_between_completion_and_key_removal", "wrapper_merge"}},
-	"C01": {Engine: "world", Cover: []string{"C05|", "C13.A1", "C04.A3"}, QuickRuns: 3000, QuickSecs: 60, ThoroughS: 600, Components: worldComponents,
+	// C01 says "is within its lifetime" and "has passed any refresh/revalidation that was due"; the former is implemented as C04.A3
+	"C01": {Engine: "world", Owns: []string{"C04.A3-lifetime-bound"}, Cover: []string{"C05|", "C13.A1", "C04.A3"}, QuickRuns: 3000, QuickSecs: 60, ThoroughS: 600, Components: worldComponents,
 		MinReach: []string{"cross_host_cookie_refused", "wrong_provider_refused", "lifetime_expired_refused", "skip_auth_arrival", "revalidation_refused"}},
 	"C02": {Engine: "world", Also: "sched", AlsoRuns: 8000, Cover: []string{"C06.A", "C08.A2"}, QuickRuns: 3000, QuickSecs: 60, ThoroughS: 600, Components: worldComponents},
 	"C03": {Engine: "world", QuickRuns: 3000, QuickSecs: 60, ThoroughS: 600, Components: worldComponents},
@@ -41,5 +42,5 @@ var props = map[string]propSpec{
 		MinReach: []string{"answer_from_cache", "partial_cache_fallback", "localcache_hit", "refresh_loop_started", "refresh_loop_already_running", "bounded_progress_checked", "porcupine_ok"}},
 	"C18": {Engine: "world", QuickRuns: 3000, QuickSecs: 60, ThoroughS: 600, Components: worldComponents, MinReach: []string{"https_redirect"}},
 	"C19": {Engine: "world", QuickRuns: 3000, QuickSecs: 60, ThoroughS: 600, Components: worldComponents, MinReach: []string{"signed_out", "signout_revoke_failed"}},
-	"C20": {Engine: "world", QuickRuns: 3000, QuickSecs: 60, ThoroughS: 600, Components: worldComponents, MinReach: []string{"c20_twin_compared"}},
+	"C20": {Engine: "world", Also: "sched", AlsoRuns: 6000, QuickRuns: 3000, QuickSecs: 60, ThoroughS: 600, Components: worldComponents, MinReach: []string{"c20_twin_compared"}},
 }
